@@ -98,19 +98,20 @@ def r1_sibling_run_space(ctx):
         )
         # same ordered source
         defs = local_defs(fp, "all_steps")
-        ok = len(defs) == 1 and isinstance(defs[0][1], ast.DictComp)
+        ok = len(defs) == 1 and isinstance(expand(fp, defs[0][1]), ast.DictComp)
         if ok:
-            dc = defs[0][1]
+            dc = expand(fp, defs[0][1])
             g = dc.generators[0]
             v = g.target.id if isinstance(g.target, ast.Name) else None
-            ok = dotted(g.iter) == "self.enabled_steps" and not g.ifs and norm(dc.key) == f"{v}.key" and norm(dc.value) in (f"list({v})", f"tuple({v})")
+            ok = dotted(expand(fp, g.iter)) == "self.enabled_steps" and not g.ifs and norm(dc.key) == f"{v}.key" and norm(dc.value) in (f"list({v})", f"tuple({v})")
         ctx.check(ok, f"{M}:{cls}.create_params#source", "{step.key: list(step) for step in self.enabled_steps}" if ok else "dask parameter grid is not built from the enabled steps in order", where=fp, node=defs[0][0] if defs else fp.node)
         nd = local_defs(fp, "params_names")
         ok = len(nd) == 1 and norm(nd[0][1]) == "[dim_names[key] for key in all_steps]"
         ctx.check(ok, f"{M}:{cls}.create_params#names", "names follow the same key order" if ok else "dimension names do not follow the key order of the values", where=fp, node=nd[0][0] if nd else fp.node)
     fp = ctx.func(f"{M}:ProductMode.create_params")
     fpc = [c for c in calls_in(fp.node) if call_name(c).endswith("from_product")]
-    ok = len(fpc) == 1 and norm(expand(fp, fpc[0].args[0], depth=0)) in ("list(all_steps.values())", "all_steps.values()") and kw(fpc[0], "names") is not None and dotted(kw(fpc[0], "names")) == "params_names"
+    it0 = arg_or_kw(fpc[0], 0, "iterables") if len(fpc) == 1 else None
+    ok = it0 is not None and norm(expand(fp, it0, _seen={"all_steps"})) in ("list(all_steps.values())", "all_steps.values()") and kw(fpc[0], "names") is not None and dotted(kw(fpc[0], "names")) == "params_names"
     ctx.check(ok, fp.qual + "#from_product", "from_product(list(all_steps.values()), names=params_names)" if ok else "product grid is not built over the ordered value lists", where=fp, node=fpc[0] if fpc else fp.node)
     ctx.trust("pd.MultiIndex.from_product enumerates in argument order")
     product_grid_labels(ctx)
